@@ -492,3 +492,19 @@ func (r *Recorder) Extension(t string, contents []byte) ([]byte, error) {
 
 var _ agent.ExtendedAgent = (*Recorder)(nil)
 var ErrClosed = errors.New("closed")
+
+// shortConn hands out at most max bytes per Read, as a TLS connection, an SSH channel or a socket under load may.
+type shortConn struct {
+	net.Conn
+	max int
+}
+
+func (s *shortConn) Read(p []byte) (int, error) {
+	if len(p) > s.max {
+		p = p[:s.max]
+	}
+	return s.Conn.Read(p)
+}
+
+// ShortReads wraps a connection so that no Read returns more than max bytes.
+func ShortReads(c net.Conn, max int) net.Conn { return &shortConn{Conn: c, max: max} }
